@@ -451,6 +451,7 @@ fn emit_pair(run: &mut Run, u: &mut U, a: &Hist, b: &Hist, kind: &str, mutant: u
         run.count("pairs-with-equal-listing");
     }
     run.count(&format!("len={}", a.ops.len()));
+    report_unknown(u, run, &desc);
     run.case(format!("(0, {body})"), &format!("corr {desc}"), nontrivial, None);
     let known = if cls == 0 { None } else { Some(class_name(cls)) };
     run.case(format!("(1, {body})"), &format!("prop {desc}"), nontrivial, known);
